@@ -121,7 +121,14 @@ def isolation_program(rng, lsb0=False):
             if muts:
                 tid, tcls = rng.choice(muts)
                 k = rng.random()
-                if k < 0.25:
+                if k < 0.08 and len(live) > 1:
+                    # an empty mutable object takes another live object in by an in-place addition
+                    nid_ = fresh()
+                    ecls = rng.choice(_d.MUTABLE)
+                    calls.append(_d.mk(nid_, ecls, [], 'bin', NONE_I))
+                    calls.append({'op': rng.choice(['prepend', 'append', 'iadd']), 't': nid_, 'xs': [_d.ref(rng.choice(live)[0])]})
+                    live.append((nid_, ecls))
+                elif k < 0.25:
                     calls.append({'op': rng.choice(['prepend', 'append', 'iadd']), 't': tid, 'xs': [str_lit(rng, rng.choice(pool))]})
                 elif k < 0.35 and len(live) > 1:
                     calls.append({'op': 'setbits', 't': tid, 'xs': [_d.ref(rng.choice(live)[0])]})
@@ -157,10 +164,20 @@ def derive_then_mutate_program(rng, lsb0=False):
     bits = _d.rand_bits(rng, rng.choice([1, 4, 8, 8, 16, 24, 3]))
     calls.append(_d.mk('s', scls, bits, rng.choice(['bin', 'auto_bin', 'auto_hex', 'bools', 'bytes_len', 'slice']), NONE_I))
     for k in range(rng.randint(4, 8)):
-        c, cls = derive_call(rng, 's', scls, 'd%d' % k, pool)      # (ids are never reused: a cut returns several objects)
-        calls.append(c)
+        if rng.random() < 0.2:
+            # an empty mutable object that takes the source in by an in-place addition
+            cls = rng.choice(_d.MUTABLE)
+            calls.append(_d.mk('d%d' % k, cls, [], 'bin', NONE_I))
+            opn = rng.choice(['prepend', 'append', 'iadd', 'insert', 'overwrite'])
+            c = {'op': opn, 't': 'd%d' % k, 'xs': [_d.ref('s')]}
+            if opn in ('insert', 'overwrite'):
+                c['ia'] = [0]
+            calls.append(c)
+        else:
+            c, cls = derive_call(rng, 's', scls, 'd%d' % k, pool)      # (ids are never reused: a cut returns several objects)
+            calls.append(c)
         if cls in _d.MUTABLE:
-            t = c['rid']
+            t = c.get('rid') or c['t']
             calls.append(rng.choice([
                 {'op': 'invert', 't': t, 'sa': ['none'], 'ia': []},
                 {'op': 'set', 't': t, 'sa': ['none'], 'ia': [rng.randint(0, 1)]},
